@@ -474,6 +474,24 @@ def run (a : Args) (w : World) (o : Oracle) : Result :=
       | .error _ => ⟨1, w, []⟩
       | .ok plan => execute dest plan w
 
+/-! ## Vocabulary of the C15 statements -/
+
+/-- the complete result `result` is what the output now holds -/
+def Holds (dest : Dest) (w : World) (r : Result) (result : Bytes) : Prop :=
+  match dest with
+  | .stdout => r.stdout = result ∧ w.stdout ≠ .devFull     -- (a device that rejects every write holds nothing)
+  | .buffered => r.stdout = result
+  | .lazy name => w.closeFails = false ∧ ∃ t m, resolve w name = some t ∧ r.world.get t = .file result m
+
+/-- the output cannot be created, or cannot take all of `result` -/
+inductive OutputFails (w : World) (result : Bytes) : Dest → Prop
+  | stdoutFull : w.stdout = .devFull → OutputFails w result .stdout
+  | stdoutCap (c : Nat) : w.stdout = .limited (some c) → c < result.length → OutputFails w result .stdout
+  | create (name : Bytes) : create w name = none → OutputFails w result (.lazy name)
+  | fileFull (name : Bytes) (t : Path) : resolve w name = some t → w.get t = .devFull → OutputFails w result (.lazy name)
+  | fileCap (name : Bytes) (l : Nat) : w.fsize = some l → l < result.length → OutputFails w result (.lazy name)
+  | close (name : Bytes) : w.closeFails = true → OutputFails w result (.lazy name)
+
 /-! ## age-keygen -/
 
 structure KArgs where
@@ -516,13 +534,22 @@ def kfinish (dest : KDest) (p : Proc) : Result :=
   | .stdout => p.result 0
   | .file _ => p.result (if p.w.closeFails then 1 else 0)
 
-/-- the complete result of an age-keygen run that gets as far as writing -/
-def kresult (a : KArgs) (o : KOracle) : Option Bytes :=
-  if a.convert then o.converted.map List.flatten else some o.keyFile
+/-- the input is opened (after the output), and what is going to be written is
+    determined: `none` = the run ends with an error before it writes. In -y
+    mode a directory opens but cannot be parsed. `w1` is the world after the
+    output has been opened. -/
+def koperation (a : KArgs) (w1 : World) (o : KOracle) : Option (List Bytes) :=
+  let name := firstArg a.positional
+  if isFileName name && openRead w1 name = .fail then none
+  else if a.convert then
+    if !isFileName name || openRead w1 name = .ok then o.converted else none
+  else some [o.keyFile]           -- `generate`: one Fprintf of the three lines
+
+def kargsValid (a : KArgs) : Bool :=
+  !(!a.positional.isEmpty && !a.convert) && !(a.positional.length > 1 && a.convert)
 
 def krun (a : KArgs) (w : World) (o : KOracle) : Result :=
-  if !a.positional.isEmpty && !a.convert then ⟨1, w, []⟩
-  else if a.positional.length > 1 && a.convert then ⟨1, w, []⟩
+  if !kargsValid a then ⟨1, w, []⟩
   else if a.version then (({ w := w } : Proc).writeStdout o.versionLine).1.result 0
   else
     -- the output is opened first
@@ -535,20 +562,25 @@ def krun (a : KArgs) (w : World) (o : KOracle) : Result :=
     | none => ⟨1, w, []⟩
     | some (w1, dest) =>
       let p : Proc := { w := w1 }
-      -- then the input (in -y mode a directory opens, and fails to parse)
-      if isFileName (firstArg a.positional) &&
-          openRead w1 (firstArg a.positional) = .fail then p.result 1
-      else if a.convert then
-        let inputOK := !isFileName (firstArg a.positional) ||
-          openRead w1 (firstArg a.positional) = .ok
-        match (if inputOK then o.converted else none) with
-        | none => p.result 1
-        | some ls =>
-          let r := kwriteLines dest p ls
-          if r.2 then kfinish dest r.1 else r.1.result 1
-      else
-        let r := kwrite dest p o.keyFile
+      match koperation a w1 o with
+      | none => p.result 1
+      | some segs =>
+        let r := kwriteLines dest p segs
         if r.2 then kfinish dest r.1 else r.1.result 1
+
+/-- the complete result has reached the output of an age-keygen run: standard
+    output, or a file that did not exist before, now with mode `0600 &^ umask` -/
+def KHolds (a : KArgs) (w : World) (r : Result) (result : Bytes) : Prop :=
+  if a.output = [] then r.stdout = result ∧ w.stdout ≠ .devFull
+  else w.closeFails = false ∧ ∃ t, resolve w a.output = some t ∧ w.get t = .absent ∧
+    r.world.get t = .file result (applyUmask 0o600 w.umask)
+
+/-- the world in which age-keygen opens its input: the output file exists by then -/
+def kworld1 (a : KArgs) (w : World) : World :=
+  if a.output = [] then w
+  else match createExcl w a.output with
+    | none => w
+    | some (w', _) => w'
 
 end Cli
 end AgeModel
